@@ -4,6 +4,7 @@
 cd /verif
 ids=${@:-$(ls seeded)}
 for id in $ids; do
+  if grep -q "\"obsolete\"" seeded/$id/meta.json; then echo "$id: obsolete (see meta.json)"; continue; fi
   checks=$(python3 -c "import json;m=json.load(open('seeded/$id/meta.json'));print(' '.join(sorted(set(m.get('caught_by',[])+[m.get('property','$id')[:3]]))))")
   if ! git -C /repo apply --check /verif/seeded/$id/patch.diff 2>/dev/null; then echo "$id: PATCH DOES NOT APPLY"; continue; fi
   for c in $checks; do
